@@ -4,7 +4,7 @@
    implementation reads it the same way is checked by the tie on all hook subsets of generated chains. *)
 From Coq Require Import NArith ZArith List Bool String Sorted.
 Import ListNotations.
-From Y Require Import Prelude Node Tables NodeOps Types Recognize Loader Spec HookOrder.
+From Y Require Import Prelude Node Tables NodeOps Types Recognize Loader Hooks Represent Spec HookOrder SweetenOrder.
 Open Scope N_scope.
 
 (* loading a node as class c applies exactly the savorize hooks of savorize_order, in that order ... *)
@@ -42,3 +42,17 @@ Theorem C10_seasoning_error : forall o reg f n T c k e,
   process o reg (S f) n T = Err ERecognition.
 Proof. exact seasoning_error_is_recognition_error. Qed.
 Print Assumptions C10_seasoning_error.
+
+(* dumping side: the sweeten hooks that run for an object of class c are those of the same chain, in the same order
+   (ancestors first, each class's OWN hook only, once); a class that defines no hook of its own contributes nothing,
+   so an inherited hook runs once, for the class that defines it *)
+Theorem C10_sweeten_applies_order : forall reg fuel c n,
+  sweeten reg fuel c n = fold_left (apply_sweeten reg) (sweeten_order reg fuel c) (Ok n).
+Proof. exact sweeten_is_fold. Qed.
+Theorem C10_sweeten_order_is_chain : forall reg, single_inh reg -> forall fuel c,
+  sweeten_order reg fuel c = filter (defines_sweeten reg) (chain reg fuel c).
+Proof. exact sweeten_order_chain. Qed.
+Theorem C10_inherited_sweeten_not_rerun : forall reg, single_inh reg -> forall fuel c, defines_sweeten reg c = false ->
+  ~ In c (sweeten_order reg fuel c).
+Proof. exact no_own_hook_no_run. Qed.
+Print Assumptions C10_inherited_sweeten_not_rerun.
